@@ -35,6 +35,7 @@
 -/
 import DateutilVerif.Proofs.CacheGlobal
 import DateutilVerif.Model.CacheNested
+import DateutilVerif.Proofs.CacheNestedStep
 
 namespace C11
 open Cache Queries
@@ -132,14 +133,14 @@ theorem exec_bound {src qs} (l : List Tid) {s s'} (h : Reachable src qs s) (he :
 /-- **finished_answer.** Whatever the schedule, a finished thread holds exactly the answer of
     Python list semantics on `src` — fast path or generator path, early exit or exhaustion. -/
 theorem finished_answer {src qs s} (h : Reachable src qs s) (hsorted : Sorted src)
-    (t : Tid) (it : Iter) (hit : s.its[t]? = some it) (hd : it.pc = .done) (hsmall : small it.q = true) :
+    (t : Tid) (it : Iter) (hit : s.its[t]? = some it) (hd : it.pc = .done) (hfits : fits it.q src) :
     it.res = some (spec it.q src) ∧ (it.q = .iterAll → it.yielded = src) := by
   obtain ⟨hi, hsrc⟩ := reachable_inv h
   obtain ⟨_, hl⟩ := hi.linv t it hit
   rw [hd] at hl
   simp only [] at hl
   rw [hsrc] at hl
-  exact ⟨hl.2.2 hsorted hsmall, hl.2.1⟩
+  exact ⟨hl.2.2 hsorted hfits, hl.2.1⟩
 
 /-- **all_complete.** A state where no thread can move — reached by every execution that keeps
     choosing enabled threads, after at most `measure (init src qs)` statements — has every thread
@@ -147,7 +148,7 @@ theorem finished_answer {src qs s} (h : Reachable src qs s) (hsorted : Sorted sr
 theorem all_complete {src qs s} (h : Reachable src qs s) (hstuck : ∀ t, step s t = none)
     (t : Tid) (it : Iter) (hit : s.its[t]? = some it) :
     it.pc = .done ∧ (it.q = .iterAll → it.yielded = src) ∧
-    (Sorted src → small it.q = true → it.res = some (spec it.q src)) := by
+    (Sorted src → fits it.q src → it.res = some (spec it.q src)) := by
   have hall : ∀ (t : Tid) (it : Iter), s.its[t]? = some it → it.pc = .done := by
     intro t it hit
     by_cases hd : it.pc = .done
@@ -206,6 +207,44 @@ line 138 of a set — executed with the SET's lock held — pulls from the membe
 which acquires the MEMBER's lock.  With a lock per object the order is parent → child only.  With
 ONE non-re-entrant lock for all objects (`shared := true`: a class-level `_cache_lock`) a single
 thread listing a cached set over a cached rule blocks on itself at the member's `acquire()`. -/
+
+/-- **nested_no_deadlock_partial.** Cached sets over cached member rules, ONE LOCK PER OBJECT, any
+    number of sets, members (shared between sets and roles), runners and any schedule: in every state
+    reachable from a fresh one, if some runner is unfinished then some runner can move.
+    `_partial`: depth 1 only — the members of a set are cached RULES.  `rruleset.rrule()` also accepts a
+    cached rruleset as a member (it only needs `__iter__`), giving deeper nesting; the same parent → child
+    argument applies level by level but is not formalised here. -/
+theorem nested_no_deadlock_partial {ns0 ns : Nested.NState} (h0 : Nested.Fresh ns0) (h : Nested.NReach ns0 ns)
+    (hun : ∃ r, Nested.IsRunner ns r ∧ Nested.finished ns r = false) :
+    ∃ r, Nested.IsRunner ns r ∧ (Nested.step ns r).isSome = true :=
+  Nested.nested_no_deadlock (Nested.nreach_inv h0 h) hun
+
+/-- **nested_all_complete_partial.** A reachable state in which no runner can move has every runner
+    finished, and every finished thread of a set holds the list-semantics answer on the set's merged
+    sequence (every finished direct thread of a member: on the member's sequence). -/
+theorem nested_all_complete_partial {ns0 ns : Nested.NState} (h0 : Nested.Fresh ns0) (h : Nested.NReach ns0 ns)
+    (hstuck : ∀ r, Nested.IsRunner ns r → Nested.step ns r = none) :
+    (∀ r, Nested.IsRunner ns r → Nested.finished ns r = true) ∧
+    (∀ (si : Nat) (S : Nested.SetM) (t : Tid) (it : Iter), ns.sets[si]? = some S → S.st.its[t]? = some it → it.pc = .done →
+        Sorted S.st.sh.src → fits it.q S.st.sh.src → it.res = some (spec it.q S.st.sh.src)) ∧
+    (∀ (m : Nat) (M : Cache.State) (t : Tid) (it : Iter), ns.members[m]? = some M → M.its[t]? = some it → it.pc = .done →
+        Sorted M.sh.src → fits it.q M.sh.src → it.res = some (spec it.q M.sh.src)) := by
+  have hi := Nested.nreach_inv h0 h
+  refine ⟨?_, ?_, ?_⟩
+  · intro r hr
+    cases hf : Nested.finished ns r with
+    | true => rfl
+    | false =>
+      obtain ⟨r', hr', hen⟩ := Nested.nested_no_deadlock hi ⟨r, hr, hf⟩
+      rw [hstuck r' hr'] at hen; cases hen
+  · intro si S t it hS hit hd hsorted hfits
+    obtain ⟨_, hl⟩ := (hi.sinv si S hS).linv t it hit
+    rw [hd] at hl
+    exact hl.2.2 hsorted hfits
+  · intro m M t it hM hit hd hsorted hfits
+    obtain ⟨_, hl⟩ := (hi.minv m M hM).linv t it hit
+    rw [hd] at hl
+    exact hl.2.2 hsorted hfits
 
 def nestedOwn := Nested.init [[0, 10, 20]] [([.cached 0], [])] [(1, .iterAll)] false
 def nestedShared := Nested.init [[0, 10, 20]] [([.cached 0], [])] [(1, .iterAll)] true
